@@ -25,6 +25,19 @@ _Any = NewType('_Any', int)
 _scalar_constructor = SafeConstructor()
 
 
+def _float_to_yaml(value: float) -> str:
+    """Writes a float the way the Dumper does, so that it is read
+    back as a float (``.inf``, ``.nan``, ``1.0e+20``)."""
+    if value != value:
+        return '.nan'
+    if value in (float('inf'), -float('inf')):
+        return '.inf' if value > 0 else '-.inf'
+    value_str = repr(value).lower()
+    if '.' not in value_str and 'e' in value_str:
+        value_str = value_str.replace('e', '.0e', 1)
+    return value_str
+
+
 class Node:
     """A wrapper class for yaml Nodes that provides utility functions.
 
@@ -117,6 +130,10 @@ class Node:
         """
         if isinstance(value, bool):
             value_str = 'true' if value else 'false'
+        elif isinstance(value, float):
+            value_str = _float_to_yaml(value)
+        elif value is None:
+            value_str = 'null'
         else:
             value_str = str(value)
         start_mark = self.yaml_node.start_mark
@@ -264,7 +281,8 @@ class Node:
             value_node = yaml.ScalarNode('tag:yaml.org,2002:int', str(value),
                                          start_mark, end_mark)
         elif isinstance(value, float):
-            value_node = yaml.ScalarNode('tag:yaml.org,2002:float', str(value),
+            value_node = yaml.ScalarNode('tag:yaml.org,2002:float',
+                                         _float_to_yaml(value),
                                          start_mark, end_mark)
         elif value is None:
             value_node = yaml.ScalarNode('tag:yaml.org,2002:null', '',
